@@ -405,12 +405,14 @@ structure SState where
 /-- `NewDecoder(r)` over a reader that will behave as `es` -/
 def init (es : List Event) : SState := { w := Window.init (avail es), events := es }
 
-/-- what one ReadToken returns: the transient I/O error, a syntactic error at an ABSOLUTE offset, or a token
-given by its kind and the absolute offsets of its first byte and of its end (`InputOffset` afterwards) -/
+/-- what one call returns: the transient I/O error, a syntactic error at an ABSOLUTE offset, a token or value
+given by its kind and the absolute offsets of its first byte and of its end (`InputOffset` afterwards), or — for
+SkipValue, which returns nothing — the offset it stopped at -/
 inductive Out where
   | fault
   | err (off : Nat) (e : Wire.Err)
   | tok (kind : UInt8) (start stop : Nat)
+  | skip (stop : Nat)
   deriving Repr, DecidableEq
 
 /-- all `fetch`es of one call at once (`Window.fetch (fetch w j) k = fetch w (j + k)`): `k` bytes were delivered -/
@@ -422,12 +424,13 @@ def kindAt (u : Bytes) (pos : Nat) : UInt8 :=
   | c :: _ => normKind c
   | [] => 0
 
-/-- `decoderState.ReadToken`: invalidate the previous token, scan on the unread part, apply the refills to the
-window, and on success set `d.prevStart, d.prevEnd` (`pos-n, pos` for strings and numbers, `pos, pos` otherwise). -/
-def readToken (o : VOpts) (s : SState) : Out × SState :=
+/-- The frame of ReadToken and ReadValue: invalidate the previous token, scan on the unread part (`lex` is the
+`switch next`), apply the refills to the window, and on success set `d.prevStart, d.prevEnd`: `span k` says whether
+the bytes of a result of kind `k` stay addressable (`pos-n, pos`) or not (`pos, pos`). -/
+def readWith (lex : TState → Bytes → Nat → List Event → Bool → SRes) (span : UInt8 → Bool) (s : SState) : Out × SState :=
   let w0 := Window.invalidate s.w
   let u := w0.unread
-  match scanToken o s.st u s.events with
+  match scanWith s.st (lex s.st) u s.events with
   | .fault u' es' =>
     (.fault, { s with w := commitFetch w0 true (u'.length - u.length), events := es' })
   | .res r start u' es' fetched =>
@@ -438,14 +441,101 @@ def readToken (o : VOpts) (s : SState) : Out × SState :=
       let k := kindAt u' start
       (.tok k (w1.inputOffset + start) (w1.inputOffset + n),
        { st := st', events := es',
-         w := Window.advance w1 (w1.prevEnd + (if k == 0x22 || k == 0x30 then start else n)) (w1.prevEnd + n) })
+         w := Window.advance w1 (w1.prevEnd + (if span k then start else n)) (w1.prevEnd + n) })
 
-/-- `n` ReadToken calls in a row (continuing after errors, as a caller may) -/
+/-- `decoderState.ReadToken` (strings and numbers keep their bytes) -/
+def readToken (o : VOpts) (s : SState) : Out × SState :=
+  readWith (lexS o) (fun k => k == 0x22 || k == 0x30) s
+
+/-- the state machine part of ReadValue for `{…}` / `[…]` (decode.go:756-770): push, then pop again -/
+def containerFeed (st : TState) (pos n : Nat) (k : UInt8) : TRes :=
+  if k == 0x7B then
+    match st.m.pushObject maxNestingDepth with
+    | .error se => .err pos (smErr se)
+    | .ok m1 =>
+      match m1.popObject with
+      | .error _ => .err pos .bug          -- `panic("BUG: popObject should never fail …")`
+      | .ok m2 => .tok (pos + n) { st with m := m2 }
+  else
+    match st.m.pushArray maxNestingDepth with
+    | .error se => .err pos (smErr se)
+    | .ok m1 =>
+      match m1.popArray with
+      | .error _ => .err pos .bug
+      | .ok m2 => .tok (pos + n) { st with m := m2 }
+
+def isScalarKind (k : UInt8) : Bool := k == 0x6E || k == 0x66 || k == 0x74 || k == 0x22 || k == 0x30
+
+/-- the part of ReadValue behind the head (decode.go:728-776): consumeValue at `pos`, then the state machine.
+For the scalar kinds consumeValue runs the same scanners and the state machine is offered the same thing as in
+ReadToken, so that arm is `lexS`; a container is scanned completely BEFORE the state machine is asked. -/
+def valS (o : VOpts) (fuel : Nat) (st : TState) (u : Bytes) (pos : Nat) (es : List Event) (f0 : Bool) : SRes :=
+  if isScalarKind (kindAt u pos) then lexS o st u pos es f0
+  else if kindAt u pos == 0x7B || kindAt u pos == 0x5B then
+    match sValue o fuel st.m.depth u pos es with
+    | .fault u' es' => .fault u' es'
+    | .done n e u' es' f1 =>
+      .res (if e != .ok then .err (pos + n) e else containerFeed st pos n (kindAt u pos)) pos u' es' (f0 || f1)
+  else .res (.err pos (if kindAt u pos == 0x7D then .mismatchDelim else .invalidChar)) pos u es f0
+
+/-- `decoderState.ReadValue` (the value's bytes stay addressable whatever its kind).  `fuel` only bounds the
+recursion of the model; Validate.fuelFor of everything that is left always suffices. -/
+def readValue (o : VOpts) (s : SState) : Out × SState :=
+  readWith (valS o (fuelFor (s.w.unread ++ avail s.events))) (fun _ => true) s
+
+/-- `decoderState.PeekKind` without its cache: find the kind of the next token (refilling as needed), consume
+nothing.  `none`: the reader faulted; kind 0: an error that the next read call will report. -/
+def peek (s : SState) : Option UInt8 × SState :=
+  let w0 := Window.invalidate s.w
+  let u := w0.unread
+  match scanWith s.st (fun u pos es f => .res (.tok pos s.st) pos u es f) u s.events with
+  | .fault u' es' => (none, { s with w := commitFetch w0 true (u'.length - u.length), events := es' })
+  | .res r start u' es' fetched =>
+    let w1 := commitFetch w0 fetched (u'.length - u.length)
+    match r with
+    | .err _ _ => (some 0, { s with w := w1, events := es' })
+    | .tok _ _ => (some (kindAt u' start), { s with w := w1, events := es' })
+
+/-- the loop of SkipValue for objects and arrays: ReadToken until the depth is back -/
+def skipLoop (o : VOpts) : Nat → Nat → SState → Out × SState
+  | 0, _, s => (.err 0 .fuel, s)
+  | fuel + 1, depth, s =>
+    match readToken o s with
+    | (.tok _ _ b, s') => if depth ≥ s'.st.m.depth then (.skip b, s') else skipLoop o fuel depth s'
+    | (out, s') => (out, s')
+
+/-- `decoderState.SkipValue` (decode.go:416): by tokens for `{`/`[`, otherwise ReadValue.  A fault inside the token
+loop is returned with the decoder part-way through the value. -/
+def skipValue (o : VOpts) (s : SState) : Out × SState :=
+  match peek s with
+  | (none, s1) => (.fault, s1)
+  | (some k, s1) =>
+    if k == 0x7B || k == 0x5B then skipLoop o ((s1.w.unread ++ avail s1.events).length + 1) s1.st.m.depth s1
+    else
+      match readValue o s1 with
+      | (.tok _ _ b, s2) => (.skip b, s2)
+      | r => r
+
+inductive Call where
+  | readToken | readValue | skipValue
+  deriving Repr, DecidableEq
+
+def call (o : VOpts) : Call → SState → Out × SState
+  | .readToken => readToken o
+  | .readValue => readValue o
+  | .skipValue => skipValue o
+
+/-- a script of calls (continuing after errors, as a caller may) -/
+def runScript (o : VOpts) : List Call → SState → List Out
+  | [], _ => []
+  | c :: cs, s => (call o c s).1 :: runScript o cs (call o c s).2
+
+/-- `n` ReadToken calls in a row -/
 def run (o : VOpts) : Nat → SState → List Out
   | 0, _ => []
   | n + 1, s => (readToken o s).1 :: run o n (readToken o s).2
 
-/-! ### the same calls on the whole input at once (TokenLoop.readToken), in the same vocabulary -/
+/-! ### the same calls on the whole input at once (TokenLoop / Validate), in the same vocabulary -/
 
 /-- where the token of the next ReadToken starts in the unread input `r`: behind blanks, an optional `:`/`,`, blanks -/
 def wholeStart (r : Bytes) : Nat :=
@@ -461,11 +551,52 @@ structure WState where
   r : Bytes
   off : Nat := 0
 
-def wholeRead (o : VOpts) (s : WState) : Out × WState :=
-  match TokenLoop.readToken o s.st s.r with
+def wholeReadWith (lexW : TState → Nat → Bytes → TRes) (s : WState) : Out × WState :=
+  match wholeWith s.st (lexW s.st) s.r with
   | .err k e => (.err (s.off + k) e, s)
   | .tok n st' =>
     (.tok (kindAt s.r (wholeStart s.r)) (s.off + wholeStart s.r) (s.off + n), { st := st', r := s.r.drop n, off := s.off + n })
+
+/-- ReadToken over the whole input: `TokenLoop.readToken` (= `wholeWith st (lexToken o st)`) -/
+def wholeRead (o : VOpts) (s : WState) : Out × WState := wholeReadWith (lexToken o) s
+
+/-- the `switch next` of ReadValue over the whole input: `Validate.consumeValue` for containers -/
+def valW (o : VOpts) (fuel : Nat) (st : TState) (pos : Nat) (r : Bytes) : TRes :=
+  if isScalarKind (kindAt r 0) then lexToken o st pos r
+  else if kindAt r 0 == 0x7B || kindAt r 0 == 0x5B then
+    if (consumeValue o fuel st.m.depth r).2 != .ok then .err (pos + (consumeValue o fuel st.m.depth r).1) (consumeValue o fuel st.m.depth r).2
+    else containerFeed st pos (consumeValue o fuel st.m.depth r).1 (kindAt r 0)
+  else .err pos (if kindAt r 0 == 0x7D then .mismatchDelim else .invalidChar)
+
+def wholeReadValue (o : VOpts) (s : WState) : Out × WState := wholeReadWith (valW o (fuelFor s.r)) s
+
+def wholePeek (s : WState) : UInt8 :=
+  match wholeWith s.st (fun pos _ => .tok pos s.st) s.r with
+  | .err _ _ => 0
+  | .tok _ _ => kindAt s.r (wholeStart s.r)
+
+def wholeSkipLoop (o : VOpts) : Nat → Nat → WState → Out × WState
+  | 0, _, s => (.err 0 .fuel, s)
+  | fuel + 1, depth, s =>
+    match wholeRead o s with
+    | (.tok _ _ b, s') => if depth ≥ s'.st.m.depth then (.skip b, s') else wholeSkipLoop o fuel depth s'
+    | (out, s') => (out, s')
+
+def wholeSkipValue (o : VOpts) (s : WState) : Out × WState :=
+  if wholePeek s == 0x7B || wholePeek s == 0x5B then wholeSkipLoop o (s.r.length + 1) s.st.m.depth s
+  else
+    match wholeReadValue o s with
+    | (.tok _ _ b, s2) => (.skip b, s2)
+    | r => r
+
+def wholeCall (o : VOpts) : Call → WState → Out × WState
+  | .readToken => wholeRead o
+  | .readValue => wholeReadValue o
+  | .skipValue => wholeSkipValue o
+
+def wholeScript (o : VOpts) : List Call → WState → List Out
+  | [], _ => []
+  | c :: cs, s => (wholeCall o c s).1 :: wholeScript o cs (wholeCall o c s).2
 
 def wholeRun (o : VOpts) : Nat → WState → List Out
   | 0, _ => []
